@@ -326,7 +326,7 @@ func newWireRig() (*wireRig, error) {
 		honey: newWireHoney(),
 	}
 	r.zenc, _ = zstd.NewWriter(nil, zstd.WithEncoderConcurrency(1))
-	r.client = &http.Client{Timeout: 30 * time.Second, Transport: &http.Transport{MaxIdleConnsPerHost: 4}}
+	r.client = &http.Client{Timeout: 30 * time.Second, Transport: &http.Transport{MaxIdleConnsPerHost: 16}}
 	r.shard = &sharder.MockSharder{Self: &sharder.TestShard{Addr: "http://self.invalid"}}
 	var lastErr error
 	for attempt := 0; attempt < 20; attempt++ {
@@ -600,4 +600,30 @@ func (r *wireRig) startDirect(compress bool, maxBatch int) {
 	r.peer.mu.Lock()
 	r.peer.inner = d
 	r.peer.mu.Unlock()
+}
+
+// runConcurrent releases g client goroutines per round through a barrier; goroutine i
+// of round k posts mk(i, k). Returns the responses indexed [round][goroutine].
+func (r *wireRig) runConcurrent(g, rounds int, mk func(gi, round int) wireReq) [][]wireResp {
+	out := make([][]wireResp, rounds)
+	for k := 0; k < rounds; k++ {
+		out[k] = make([]wireResp, g)
+		reqs := make([]wireReq, g)
+		for i := range reqs {
+			reqs[i] = mk(i, k)
+		}
+		start := make(chan struct{})
+		var wg sync.WaitGroup
+		for i := 0; i < g; i++ {
+			wg.Add(1)
+			go func(i int) {
+				defer wg.Done()
+				<-start
+				out[k][i] = r.post(reqs[i])
+			}(i)
+		}
+		close(start)
+		wg.Wait()
+	}
+	return out
 }
